@@ -224,6 +224,13 @@ Example C07_nonvacuous_reject :
   (* missing required param *)   /\ bad (ex_t_body ++ [NCall 0 (b "ns.u") true None []]) = (Reject RMissingParam, false)
   (* unknown callee *)           /\ bad (ex_t_body ++ [NCall 0 (b "ns.nope") false None []]) = (Reject RNoTemplate, false)
   (* loop function, no loop *)   /\ bad (ex_t_body ++ [pr (NFunc 0 (b "index") [ref "p"])]) = (Reject RLoopFunc, false)
+  (* loop function, inside the loop over i, on anything but the one plain variable (C14-loopfunc-shape) *)
+                                 /\ (let inloop e := [NFor 0 (b "i") (NListLit 0 [ref "p"]) (NList 0 [pr (ref "i"); pr e]) None] in
+                                     bad (inloop (NFunc 0 (b "isLast") [])) = (Reject RLoopFunc, false)
+                                  /\ bad (inloop (NFunc 0 (b "isLast") [NInt 0 1])) = (Reject RLoopFunc, false)
+                                  /\ bad (inloop (NFunc 0 (b "isFirst") [NDataRef 0 (b "i") [NAccKey 0 false (b "y")]])) = (Reject RLoopFunc, false)
+                                  /\ bad (inloop (NFunc 0 (b "index") [ref "i"; ref "i"])) = (Reject RLoopFunc, false)
+                                  /\ bad (inloop (NFunc 0 (b "index") [ref "i"])) = (Accept, true))
   (* soydoc and header params *) /\ bad (NHeaderParam 0 false (b "h") (b "int") None :: pr (ref "h") :: ex_t_body) = (Reject RBothParamKinds, false)
   (* param used only under a same-named let: unused *)
                                  /\ bad [NLetValue 0 (b "p") (NInt 0 1); pr (ref "p")] = (Reject RUnusedParam, false).
